@@ -85,7 +85,7 @@ Proof.
     + cbn [walk_list]. rewrite Wx.
       rewrite (IH H2 (i - size x)%nat) by lia.
       destruct (walk_list r) as [b ok']. cbn [fst].
-      rewrite firstn_app, Lx. rewrite firstn_all2 by lia. reflexivity.
+      rewrite firstn_app, Lx. rewrite (firstn_all2 (n:=i) a) by lia. reflexivity.
 Qed.
 
 Lemma vanish_walk t : vanish_spec t.
@@ -138,8 +138,9 @@ Qed.
 (* ---- command cache: what the store command is sent, at every walk position ---- *)
 Lemma good_firstn st i : good st -> good (firstn i st).
 Proof.
-  unfold good. intro H. apply Forall_forall. intros c Hc.
-  rewrite Forall_forall in H. apply H. eapply firstn_In. exact Hc.
+  unfold good. intro H. revert i. induction H as [|c r Hc Hr IH]; intro i; destruct i; cbn [firstn]; constructor.
+  - exact Hc.
+  - apply IH.
 Qed.
 
 Theorem cmd_vanish_sent files i :
